@@ -1,4 +1,237 @@
 import ScryerModel.Proofs.Codec
+/-!
+# C37 — Hashes and encodings are byte-exact (codec part)
+
+Property theorems over `Model/Codec.lean`. All of them are for byte / character lists of ANY
+length (induction; no bound). `Bytes bs` = every element `< 256`; `Scalars cs` = every element
+is a Unicode scalar value; hypothesis-free versions over `List UInt8` / `List Char` follow each
+group. Only statements live here; lemmas are in `Proofs/Codec`.
+
+* hex (`hexEncode`/`hexDecode` mirror `bytes_hex//1`, `hex_bytes//1`, `char_hexval/2` of
+  `crypto.pl`);
+* Base64 (`b64Encode`/`b64Decode`: RFC 4648 §4/§5 with `padding/1`, `charset/1`; the decoder is
+  the strict one of the `base64` crate engines used by `'$chars_base64'/4`);
+* UTF-8 (`utf8Encode`/`utf8Decode`: RFC 3629; `utf8EncodeCharMech`/`utf8DecodeMech` mirror
+  `code_to_utf8//1` and `decode_utf8//1` of `charsio.pl`).
+
+Digests, HMAC and ChaCha20-Poly1305 are NOT covered by any theorem (third-party crates; tied
+by an independent oracle in `vlib/props/C37.py`).
+-/
 namespace Scryer.Codec
-theorem C37_placeholder : True := trivial
+
+/-! ## hex_bytes/2 -/
+
+/-- Decoding the hex text of any byte list gives the byte list back. -/
+theorem C37_hex_roundtrip (bs : List Nat) (h : Bytes bs) : hexDecode (hexEncode bs) = some bs :=
+  hex_roundtrip bs h
+
+/-- The hex text has exactly two characters per byte, all of them lower-case hex digits. -/
+theorem C37_hex_shape (bs : List Nat) (h : Bytes bs) :
+    (hexEncode bs).length = 2 * bs.length ∧ ∀ c ∈ hexEncode bs, c ∈ lowerHex :=
+  ⟨hex_length bs, hex_lower bs h⟩
+
+/-- The hex encoder is injective. -/
+theorem C37_hex_injective (a b : List Nat) (ha : Bytes a) (hb : Bytes b)
+    (h : hexEncode a = hexEncode b) : a = b := by
+  have := hex_roundtrip a ha
+  rw [h, hex_roundtrip b hb] at this
+  exact (Option.some.inj this).symm
+
+/-- Whatever the decoder accepts is a list of octets, half as long as the text. -/
+theorem C37_hex_decode_sound (hs : List Char) (bs : List Nat) (h : hexDecode hs = some bs) :
+    Bytes bs ∧ hs.length = 2 * bs.length :=
+  hexDecode_sound hs bs h
+
+/-- The decoder fails (`domain_error(hex_encoding, _)` in `hex_bytes/2`) exactly for texts of
+    odd length or containing a character that is not one of `0-9a-fA-F`. -/
+theorem C37_hex_decode_error_iff (hs : List Char) :
+    hexDecode hs = none ↔ hs.length % 2 = 1 ∨ ∃ c ∈ hs, hexVal c = none :=
+  hexDecode_none_iff hs
+
+/-- Hypothesis-free form: for every list of `UInt8`. -/
+theorem C37_hex_roundtrip_uint8 (bs : List UInt8) :
+    hexDecode (hexEncode (bs.map UInt8.toNat)) = some (bs.map UInt8.toNat) :=
+  hex_roundtrip _ (by
+    intro b hb
+    rcases List.mem_map.mp hb with ⟨x, _, rfl⟩
+    exact UInt8.toNat_lt x)
+
+/-- `hex_bytes(-Hs, +Bytes)` on a list of integers: the hex text if all of them are in `0..255`;
+    a reported `type_error(byte, B)` always names an element outside that range. -/
+theorem C37_hex_bytes_check (bs : List Int) :
+    ((∀ b ∈ bs, 0 ≤ b ∧ b ≤ 255) → hexBytesEnc bs = .ok (hexEncode (bs.map Int.toNat)))
+    ∧ (∀ b, hexBytesEnc bs = .error b → b ∈ bs ∧ ¬ (0 ≤ b ∧ b ≤ 255)) := by
+  unfold hexBytesEnc
+  constructor
+  · intro h
+    rw [(firstNonByte_none_iff bs).mpr h]
+  · intro b h
+    cases hf : firstNonByte bs with
+    | none => rw [hf] at h; cases h
+    | some x =>
+      rw [hf] at h
+      cases h
+      exact firstNonByte_some bs b hf
+
+/-! ## chars_base64/3 -/
+
+/-- For every option set (`padding(true|false)` × `charset(standard|url)`): decoding the
+    Base64 text of any byte list gives the byte list back. -/
+theorem C37_b64_roundtrip (o : B64Opts) (bs : List Nat) (h : Bytes bs) :
+    b64Decode o (b64Encode o bs) = some bs :=
+  b64_roundtrip o bs h
+
+/-- Length law: `4⌈n/3⌉` characters with padding, `⌈4n/3⌉` without. -/
+theorem C37_b64_length (o : B64Opts) (bs : List Nat) :
+    (b64Encode o bs).length =
+      if o.pad then 4 * ((bs.length + 2) / 3) else (4 * bs.length + 2) / 3 :=
+  b64_length o bs
+
+/-- Alphabet law: the text is a run of characters of the selected 64-character alphabet followed
+    by `(3 - n mod 3) mod 3 ≤ 2` `'='` characters if padding is on, and by nothing otherwise. -/
+theorem C37_b64_alphabet (o : B64Opts) (bs : List Nat) (h : Bytes bs) :
+    ∃ body k, b64Encode o bs = body ++ List.replicate k '='
+      ∧ (∀ c ∈ body, c ∈ b64Alphabet o.url)
+      ∧ k = (if o.pad then padCount bs.length else 0) ∧ k ≤ 2 := by
+  refine ⟨(sextets bs).map (b64Char o.url), if o.pad then padCount bs.length else 0, ?_, ?_, rfl, ?_⟩
+  · unfold b64Encode; cases o.pad <;> simp
+  · intro c hc
+    rcases List.mem_map.mp hc with ⟨s, hs, rfl⟩
+    exact b64Char_mem o.url s (sextets_sext bs h s hs)
+  · unfold padCount; split <;> omega
+
+/-- The Base64 encoder is injective for every option set. -/
+theorem C37_b64_injective (o : B64Opts) (a b : List Nat) (ha : Bytes a) (hb : Bytes b)
+    (h : b64Encode o a = b64Encode o b) : a = b := by
+  have := b64_roundtrip o a ha
+  rw [h, b64_roundtrip o b hb] at this
+  exact (Option.some.inj this).symm
+
+/-- The strict decoder accepts exactly the encoder's outputs: whatever it accepts is a byte list
+    whose encoding (same options) is the given text — wrong / missing / superfluous padding,
+    non-zero trailing bits and foreign characters are all rejected. -/
+theorem C37_b64_decode_canonical (o : B64Opts) (cs : List Char) (bs : List Nat)
+    (h : b64Decode o cs = some bs) : Bytes bs ∧ b64Encode o bs = cs :=
+  b64_decode_canonical o cs bs h
+
+/-- Hypothesis-free form: for every list of `UInt8` and every option set. -/
+theorem C37_b64_roundtrip_uint8 (o : B64Opts) (bs : List UInt8) :
+    b64Decode o (b64Encode o (bs.map UInt8.toNat)) = some (bs.map UInt8.toNat) :=
+  b64_roundtrip o _ (by
+    intro b hb
+    rcases List.mem_map.mp hb with ⟨x, _, rfl⟩
+    exact UInt8.toNat_lt x)
+
+/-! ## chars_utf8bytes/2 -/
+
+/-- Decoding the UTF-8 encoding of any list of scalar values gives the list back. -/
+theorem C37_utf8_roundtrip (cs : List Nat) (h : Scalars cs) :
+    utf8Decode (utf8Encode cs) = some cs :=
+  utf8_roundtrip cs h
+
+/-- Hypothesis-free form: for every list of `Char`s (Lean's `Char` = Unicode scalar value, as
+    are Scryer's characters). -/
+theorem C37_utf8_roundtrip_chars (cs : List Char) :
+    utf8Decode (utf8Encode (cs.map Char.toNat)) = some (cs.map Char.toNat) :=
+  utf8_roundtrip _ (by
+    intro c hc
+    rcases List.mem_map.mp hc with ⟨x, _, rfl⟩
+    exact x.valid)
+
+/-- The UTF-8 encoder is injective on scalar values. -/
+theorem C37_utf8_injective (a b : List Nat) (ha : Scalars a) (hb : Scalars b)
+    (h : utf8Encode a = utf8Encode b) : a = b := by
+  have := utf8_roundtrip a ha
+  rw [h, utf8_roundtrip b hb] at this
+  exact (Option.some.inj this).symm
+
+/-- … and therefore on character lists. -/
+theorem C37_utf8_injective_chars (a b : List Char)
+    (h : utf8Encode (a.map Char.toNat) = utf8Encode (b.map Char.toNat)) : a = b := by
+  have h1 := C37_utf8_roundtrip_chars a
+  rw [h, C37_utf8_roundtrip_chars b] at h1
+  have := (Option.some.inj h1).symm
+  exact (List.map_inj_right (fun x y hxy => Char.toNat_inj.mp hxy)).mp this
+
+/-- Every code point below 0x110000 is encoded in 1–4 octets. -/
+theorem C37_utf8_encode_shape (c : Nat) (h : c < 0x110000) :
+    Bytes (utf8EncodeChar c) ∧ 1 ≤ (utf8EncodeChar c).length ∧ (utf8EncodeChar c).length ≤ 4 :=
+  ⟨utf8EncodeChar_bytes c h, utf8EncodeChar_length c⟩
+
+/-- The strict decoder accepts exactly the encodings of scalar values (shortest form only, no
+    surrogates, nothing above U+10FFFF): whatever it accepts re-encodes to the input. -/
+theorem C37_utf8_decode_canonical (bs cs : List Nat) (h : utf8Decode bs = some cs) :
+    Scalars cs ∧ utf8Encode cs = bs :=
+  utf8Decode_canonical bs cs h
+
+/-- The clauses of `code_to_utf8//1` / `encode//3` (shifts, masks, `\/`) compute the RFC 3629
+    table for every code point `char_code/2` can deliver. -/
+theorem C37_utf8_encode_mech (c : Nat) (h : c < 0x110000) :
+    utf8EncodeCharMech c = some (utf8EncodeChar c) :=
+  utf8EncodeCharMech_eq c h
+
+/-- On well-formed UTF-8 the clauses of `decode_utf8//1` (as at HEAD, `fix = false`, and with
+    the patch proposed in notes/findings/C37-1.md, `fix = true`) return exactly the strict
+    decoder's characters; in particular `chars_utf8bytes/2` decodes its own output. -/
+theorem C37_utf8_decode_mech_agrees (fix : Bool) (bs cs : List Nat)
+    (h : utf8Decode bs = some cs) : utf8DecodeMech fix bs = .ok cs :=
+  utf8DecodeMech_of_strict fix bs cs h
+
+/-- `once(phrase(decode_utf8(Cs), Bs))` never fails: it returns characters (with U+FFFD for
+    some ill-formed parts) or raises `representation_error(character_code)`. -/
+theorem C37_utf8_decode_mech_total (fix : Bool) (bs : List Nat) :
+    utf8DecodeMech fix bs ≠ .fail :=
+  utf8DecodeMech_ne_fail fix bs
+
+/-- PARTIAL (holds for the patched clauses only, `fix = true`): if the decoder returns characters
+    none of which is U+FFFD then the input was well-formed UTF-8 and the characters are its
+    strict decoding — ill-formed input is never silently interpreted as characters. For the code
+    at HEAD (`fix = false`) this is FALSE: see the `example`s below (finding C37-1: overlong
+    forms such as `C0 80` are accepted). -/
+theorem C37_utf8_decode_illformed_signalled_partial (bs cs : List Nat) (hb : Bytes bs)
+    (h : utf8DecodeMech true bs = .ok cs) (hf : 0xFFFD ∉ cs) : utf8Decode bs = some cs :=
+  utf8DecodeMech_fix_sound bs cs hb h hf
+
+/-! ## non-vacuity / branch coverage -/
+
+example : Bytes [0, 127, 128, 255] := by simp [Bytes]
+example : hexEncode [80, 26, 206] = ['5','0','1','a','c','e'] := by decide
+example : hexDecode ['5','0','1','A','C','E'] = some [80, 26, 206] := by decide
+example : hexDecode ['0'] = none ∧ hexDecode ['0','g'] = none := by decide
+example : hexBytesEnc [1, 256, -3] = .error 256 := by simp [hexBytesEnc, firstNonByte]
+example : b64Encode ⟨true, false⟩ [104, 101, 108, 108, 111] = "aGVsbG8=".toList := by decide
+example : b64Encode ⟨false, true⟩ [251, 255] = ['-', '_', '8'] := by decide
+example : b64Encode ⟨true, false⟩ [251, 255] = ['+', '/', '8', '='] := by decide
+-- wrong padding, non-zero trailing bits, foreign alphabet are rejected
+example : b64Decode ⟨true, false⟩ "aGVsbG8".toList = none := by decide
+example : b64Decode ⟨false, false⟩ "aGVsbG8=".toList = none := by decide
+example : b64Decode ⟨true, false⟩ "aGVsbG9=".toList = none := by decide
+example : b64Decode ⟨true, true⟩ "+/8=".toList = none := by decide
+example : b64Decode ⟨true, false⟩ "+/8=".toList = some [251, 255] := by decide
+example : Scalars [0, 0x7F, 0x80, 0x7FF, 0x800, 0xD7FF, 0xE000, 0xFFFF, 0x10000, 0x10FFFF] := by
+  simp [Scalars, isScalar]
+example : utf8Encode [0x41, 0xE9, 0x2211, 0x1F600] = [65, 195, 169, 226, 136, 145, 240, 159, 152, 128] := by
+  decide
+-- strict decoder: overlong, surrogate, too big, truncated are all rejected
+example : utf8Decode [0xC0, 0x80] = none ∧ utf8Decode [0xE0, 0x80, 0x80] = none
+    ∧ utf8Decode [0xED, 0xA0, 0x80] = none ∧ utf8Decode [0xF4, 0x90, 0x80, 0x80] = none
+    ∧ utf8Decode [0xE2, 0x88] = none := by decide
+-- finding C37-1: the clauses at HEAD turn the overlong form C0 80 into U+0000 …
+example : utf8DecodeMech false [0xC0, 0x80] = .ok [0] := by
+  rw [utf8DecodeMech_cons]
+  have : mechStep false 0xC0 [0x80] = .char 0 [] := by decide
+  rw [this]; simp [utf8DecodeMech]
+-- … the patched clauses give U+FFFD
+example : utf8DecodeMech true [0xC0, 0x80] = .ok [0xFFFD] := by
+  rw [utf8DecodeMech_cons]
+  have : mechStep true 0xC0 [0x80] = .char 0xFFFD [] := by decide
+  rw [this]; simp [utf8DecodeMech]
+-- the other branches of the mirror: surrogate → exception, bad continuation byte swallowed,
+-- truncated sequence at the end → one U+FFFD
+example : mechStep false 0xED [0xA0, 0x80] = .reprErr := by decide
+example : mechStep false 0xE2 [0x41, 0x42] = .char 0xFFFD [0x42] := by decide
+example : mechStep false 0xE2 [0x88] = .char 0xFFFD [] := by decide
+example : mechStep false 0xE2 [] = .char 0xFFFD [] := by decide
+example : mechStep false 0xFF [0x41] = .char 0xFFFD [0x41] := by decide
+
 end Scryer.Codec
